@@ -107,13 +107,21 @@ def work(h, cases):
 
 
 def one(h, case):
-    if case["expect"]["k"] != "fail" or not case.get("fault"):
-        return {"status": "skip", "why": "no planted fault"}
+    if case["expect"]["k"] != "fail":
+        return {"status": "skip", "why": "no fault"}
     if case.get("devs"):
         return {"status": "skip", "why": "program touches a recorded deviation"}
     prog = case["prog"]
-    fault = case["fault"]
+    fault = case.get("fault")
     at = first_failing(case)
+    if not fault:
+        # no planted fault, yet the program fails (a division by zero, a callback meeting the one item of its
+        # target it cannot handle, ...): the statement containing the fault is where the machine of VM.tla
+        # stops (blame[0], a statement number); the calling statement is the top-level statement that was running
+        bl = [b for b in (case.get("blame") or []) if isinstance(b, int)]
+        if not bl or not (1 <= bl[0] <= len(prog)):
+            return {"status": "skip", "why": "no planted fault and no modelled position"}
+        fault = bl[0]
     sd = hash(repr(prog)) & 0xFFFFFFF
     rng = random.Random(sd)
     try:
